@@ -96,7 +96,16 @@ def run(shard, rec):
                         mk = lambda S: thresha.PRF(keys[S], bound)
                     else:
                         mk = lambda S: StubPRF(keys[S], bound, mode, np)
-                    prfs = [{S: mk(S) for S in subsets if i in S} for i in range(m)]
+                    # a party's key table is filled in the order the keys arrive (own keys first, then per peer as connections come up), not lexicographically
+                    def table(i):
+                        mine = [S for S in subsets if i in S]
+                        own = [S for S in mine if S[0] == i]
+                        rest = [S for S in mine if S[0] != i]
+                        if rep % 3:
+                            rng.shuffle(rest)
+                        order_ = own + rest if rep % 3 != 2 else rng.sample(mine, len(mine))
+                        return {S: mk(S) for S in order_}
+                    prfs = [table(i) for i in range(m)]
                     uci = rng.randbytes(rng.choice([0, 1, 8]))
                     for n in (0, 1, 2, 17):
                         case = [fname, m, t, mode, bound, uci.hex(), n, rep]
